@@ -147,6 +147,10 @@ func gen(t *rapid.T) Case {
 		c.Declared.Data = rapid.SampledFrom([]string{"named", "named", "stream", "wrong-bytes", "wrong-length"}).Draw(t, "descDataKind")
 	}
 
+	if c.Declared.Kind == "wrong-digest" && c.Declared.Data == "" && rapid.Bool().Draw(t, "descDataNamesOther") {
+		c.Declared.Data = "named" // descriptor consistent in itself (digest, size, data), the stream is another blob
+	}
+
 	// source
 	c.Seekable = rapid.Bool().Draw(t, "seekable")
 	if rapid.Bool().Draw(t, "shortReads") {
